@@ -12,7 +12,9 @@ from props import c01, c06, c07, c10, c11, c12, c13, c14, c19, c02, c09
 PID = "C08"
 GENS = [c01.gen_case, c07.gen_case, c10.gen_case, c11.gen_case, c12.gen_case, c13.gen_case, c14.gen_case, c19.gen_case, c02.gen_case, c09.collide_case]
 DIRECTIVES = ["$merge", "$replace", "$match", "$value", "$delete", "$output", "$repeat", "$encode", "$decode", "$invert", "$required",
-              "$parent", "$path", "$env:HOME", "$\"{a}\"", "$merge:a", "$replace:a.b", "$\"{t}\""]
+              "$parent", "$path", "$env:HOME", "$\"{a}\"", "$merge:a", "$replace:a.b", "$\"{t}\"",
+              # the SHORTEST strings each recogniser accepts (prefix and suffix overlapping, empty arguments)
+              "$\"", "$\"\"", "$env:", "$merge:", "$replace:", "$", "$$", "$\"{", "$\"{}\"", "$\"}\"", "$\"{a\"", "$\"é\"", "$\"{é}\""]
 ARGS = [None, True, False, 0, 1, -1, 3, 1.5, "", "a", "a.b", "c", [], ["a"], ["a", "b"], {}, {"a": 1}, {"$match": {}}, [[]], [{}],
         "$merge:a", "$\"{a}\"", {"$match": {"a": 1}, "$path": "a"}, [{"a": 1}, "a"], "json", "yaml", "base64", ["join", 1]]
 
